@@ -136,7 +136,7 @@ if [ ! -x "$OUT" ]; then
             --redefine-sym sleep=verif_os_sleep --redefine-sym sched_yield=verif_os_sched_yield --redefine-sym clock_gettime=verif_os_clock_gettime \
             --redefine-sym gettimeofday=verif_os_gettimeofday --redefine-sym time=verif_os_time --redefine-sym clock=verif_os_clock \
             --redefine-sym getpid=verif_os_getpid \
-            --redefine-sym __read_chk=verif_os_read_chk --redefine-sym __open_2=verif_os_open_2 --redefine-sym __open64_2=verif_os_open_2 \
+            --redefine-sym __read_chk=verif_os_read_chk --redefine-sym __open_2=verif_os_open_2 --redefine-sym __open64_2=verif_os_open64_2 \
             --redefine-sym __getrandom_chk=verif_os_getrandom_chk --redefine-sym __getentropy_chk=verif_os_getentropy_chk \
             --redefine-sym malloc=verif_lib_malloc --redefine-sym calloc=verif_lib_calloc --redefine-sym realloc=verif_lib_realloc --redefine-sym free=verif_lib_free \
             --redefine-sym posix_memalign=verif_lib_posix_memalign --redefine-sym aligned_alloc=verif_lib_aligned_alloc "$f"
